@@ -222,4 +222,18 @@ CHECKS = {
         "note": "Fixtures/parametrize/async are outside the model; evidence of execution is marker files written through write_file; "
                 "whether -x stops on XPASS is left open (undocumented); real sessions use 3 tests over 1-3 files.",
     },
+    "C17": {
+        "level": "model_checking",
+        "technique": "TLA+ spec Newtype (lowering walk: hook registration pre-pass, current_impl_type save/set/restore, Call-arm rewrite) with "
+                     "invariant RewrittenIffMust over all declaration orders x hook kinds; generated Rust inspected per construction site; "
+                     "sampled programs compiled and run on accepted / rejected arguments",
+        "text": "Newtype.tla transcribes the three cooperating mechanisms of checked construction and states MustValidate from the property; "
+                "TLC checks for every declaration order and hook kind that exactly the sites that must validate are rewritten. Every "
+                "scenario (x underlying int/str) is rendered with one function per construction site (let, argument, return, field "
+                "initialiser, list element, nested call, other type's method, own method) and the emitted function bodies must carry "
+                "the hook call exactly where the machine says; a seeded sample is compiled and must stop with the validation failure on "
+                "a rejected argument and print normally on an accepted one; nominal typing is checked through the checker.",
+        "note": "Cross-module construction is observed through the real CLI with a stub cargo (catalogued finding: the hook is bypassed "
+                "across modules); programs rustc rejects are counted and left to C02.",
+    },
 }
